@@ -1,6 +1,6 @@
 (* C07 - Clones are faithful, self-contained and independent of the original. Property theorems only. *)
 From Coq Require Import List.
-From SV Require Import Base.Base IR.State IR.NS IR.Ops Xform.Clone Proofs.CloneSmall Proofs.C01_full Proofs.Inv1a Proofs.Inv2a Proofs.CloneFrame Proofs.CloneStart Proofs.NsInv Proofs.InvW Proofs.UniqInv Proofs.CloneFaith Proofs.CloneFull.
+From SV Require Import Base.Base IR.State IR.NS IR.Ops Xform.Clone Proofs.CloneSmall Proofs.C01_full Proofs.Inv1a Proofs.Inv2a Proofs.CloneFrame Proofs.CloneStart Proofs.NsInv Proofs.InvW Proofs.UniqInv Proofs.CloneFaith Proofs.CloneFull Proofs.CloneNetInv.
 Import ListNotations.
 
 (* cloning a wire: one fresh element, no pins listed, nothing else changes *)
@@ -81,6 +81,31 @@ Theorem C07_definition_clone_keeps_invariant : forall ops d,
 Proof. exact clone_definition_reachable_inv. Qed.
 Print Assumptions C07_definition_clone_keeps_invariant.
 
+(* the same for Netlist.clone, the deep copy of a whole design: in every state reachable by editing
+   calls, a completed clone of a netlist whose instances (the children of its definitions and its top
+   instance) all instantiate definitions of that netlist leaves the whole structural invariant in
+   force - for the original design and for the copy: containers and parents agree everywhere
+   (including the library list of the copied netlist), every definition lists exactly the instances
+   that reference it (so the copied definitions list the copied instances and the original ones the
+   original instances, nothing crosses), every wire lists exactly the pins that report it, and every
+   instance's outer-pin table mirrors the ports of the definition it references. The closedness
+   hypothesis is needed: an instance of a definition outside the netlist keeps that reference in the
+   copy without being entered in the outside definition's reference set. *)
+Theorem C07_netlist_clone_keeps_invariant : forall ops n,
+  let s := run ops init in
+  kind_of s n = Some KNetlist -> Closed s n -> snd (fst (clone_netlist s n)) = None ->
+  Inv (fst (fst (clone_netlist s n))).
+Proof. exact clone_netlist_reachable_inv. Qed.
+Print Assumptions C07_netlist_clone_keeps_invariant.
+
+(* ... and from any state that satisfies the invariants the editing calls maintain *)
+Theorem C07_netlist_clone_keeps_invariant_from : forall s0 n,
+  UF s0 -> StartOK s0 -> (forall x e, iref s0 x = Some e -> kind_of s0 e = Some KDefinition) ->
+  kind_of s0 n = Some KNetlist -> (forall t, top s0 n = Some t -> kind_of s0 t = Some KInstance) -> Closed s0 n ->
+  snd (fst (clone_netlist s0 n)) = None -> Inv (fst (fst (clone_netlist s0 n))).
+Proof. exact clone_netlist_inv. Qed.
+Print Assumptions C07_netlist_clone_keeps_invariant_from.
+
 (* faithfulness of Definition._clone, the statement the invariant rests on: the memo maps the copied
    objects of the source injectively to fresh objects; each copied pin points at the image of the wire
    its source points at, each copied wire lists the images of the pins its source lists, each copied
@@ -117,3 +142,12 @@ Example C07_sample :
   kids s' RLibs 10 = [11] /\ top s' 10 = Some 19 /\ iref s' 18 = Some 12 /\ iref s' 19 = Some 15 /\
   wpins s' 17 = [POut 18 14] /\ wpins s' 8 = [POut 6 4] /\ drefs s' 2 = [6].
 Proof. vm_compute. repeat split. Qed.
+
+(* non-vacuity of the netlist theorem: the design of C07_sample is a netlist, is closed, and its clone completes *)
+Example C07_netlist_clone_sample :
+  let ops := [ ONew KNetlist None []; OCreate RLibs 0 None [] 0 None; OCreate RDefs 1 None [] 0 None;
+               OCreate RPorts 2 None [] 1 None; OCreate RDefs 1 None [] 0 None; OCreate RChildren 5 None [] 0 (Some 2);
+               OCreate RCables 5 None [] 1 None; OConnect 8 (POut 6 4) None; OSetTop 0 (TopDef 5) ] in
+  let s := run ops init in
+  kind_of s 0 = Some KNetlist /\ Closed s 0 /\ snd (fst (clone_netlist s 0)) = None /\ net_insts s 0 = [6; 9].
+Proof. split; [reflexivity|]. split; [apply closedb_ok; vm_compute; reflexivity|]. split; vm_compute; reflexivity. Qed.
